@@ -284,6 +284,25 @@ class Explorer:
             self.explore(s2, item, path + ("next()",), depth + 1)
 
 
+PARSED = "<parsed>"
+ERROR_OF = "<error-of>"
+
+
+def opaque_parse_hook(F, entry_of, skip=()):
+    """call hook: a call to another parsing entry point `T::parse(view)` is replaced by its contract
+    "returns Ok(some T built from exactly this view) or Err(some error)".  Sound for panic-freedom
+    because each entry point is analysed on its own for every slice (see construction discipline);
+    used by the conversion/dispatch rules to see *which* parser is applied to *which* bytes."""
+    def hook(tgt, e, st, args):
+        if tgt in entry_of and tgt not in skip and args and isinstance(args[0], SliceV):
+            adt = entry_of[tgt]
+            okv = StructV(adt, PARSED, {"data": args[0], "__by": FnV(tgt)})
+            erv = StructV("RtcpParseError", ERROR_OF, {"view": args[0], "__by": FnV(tgt)})
+            return [(st.clone(), "val", ok(okv)), (st.clone(), "val", err(erv))]
+        return None
+    return hook
+
+
 class IterReport:
     def __init__(self, adt, path):
         self.adt, self.path = adt, path
